@@ -61,6 +61,20 @@ Fixpoint table_ok (T : list entry) : bool :=
       && negb (is_empty s) && table_ok r
   end.
 
+(* one step in the life of the receivers, as the harness runs it on the real objects:
+   CReload  receiver r reloads its metadata (MetadataStore.reload / Entity.reload_metadata, inline or from a file
+            that was rewritten); good = false: a configuration that does not load
+   CLookup  metadata.certs(...) of receiver r is asked with other arguments, the answer is consumed
+   CSend    receiver r itself signs a message for the redirect binding (Entity.apply_binding on the Server, dflt =
+            its default algorithm); the URL is then checked by verify_redirect_signature with vc x, as in Unit
+   CRecv    a URL that entity ks x signed (as in Stack) for a request with issuer number iss is handed to receiver r *)
+Inductive cstep :=
+| CReload (r : nat) (good : bool) (pub : list (list (certarg nat)))
+| CLookup (r : nat)
+| CSend (r : nat) (dflt : string) (x : input nat nat)
+| CRecv (r iss : nat) (dflt : string) (x : input nat nat).
+Inductive cobs := OReload (ok : bool) | OLookup | OSend (o : output) | ORecv (so : sres) (accepted : bool).
+
 Inductive case :=
 (* direct calls: pack.http_redirect_message (via = None) or Entity.apply_binding (via = Some default
    algorithm of the entity), then sigver.verify_redirect_signature *)
@@ -70,7 +84,10 @@ Inductive case :=
    signing certificates `certs` for the issuer, in this order (CUnreadable = a KeyDescriptor whose octets are no
    X.509 certificate); must = want_authn_requests_signed; observed: request accepted *)
 | Stack (T : list entry) (dflt : string) (x : input nat nat) (certs : list (certarg nat)) (must : bool)
-        (so : sres) (accepted : bool).
+        (so : sres) (accepted : bool)
+(* a LIFE of long-lived receivers (strengthening round 5): st0 = the receivers as configured (own key, must, per
+   issuer number the signing certificates published in order); steps in order, each with what was observed *)
+| Life (T : list entry) (st0 : list (receiver nat nat)) (steps : list cstep) (obs : list cobs).
 
 Definition mkx ks typ val rs alg sgn q vc own : input nat nat :=
   Build_input ks typ val rs alg sgn q vc own.
@@ -105,12 +122,44 @@ Definition model_accept (T : list entry) (x : input nat nat) (certs : list (cert
                      (get (q x) K_RS) (get (q x) K_ALG) (get (q x) K_SIG)
   end.
 
+(* the step as the model sees it *)
+Definition to_lstep (s : cstep) : lstep nat :=
+  match s with
+  | CReload r good pub => LReload r good pub
+  | CLookup r => LOther r
+  | CSend r _ _ => LOther r
+  | CRecv r iss _ x =>
+      LRecv r iss (match get (q x) K_REQ with Some d => d | None => EmptyString end)
+            (get (q x) K_RS) (get (q x) K_ALG) (get (q x) K_SIG)
+  end.
+
+Definition step_agrees (T : list entry) (s : cstep) (m : lres) (o : cobs) : bool :=
+  match s, m, o with
+  | CReload _ _ _, RReload ok, OReload ok' => Bool.eqb ok ok'
+  | CLookup _, ROther, OLookup => true
+  | CSend _ dflt x, ROther, OSend o =>
+      sres_eqb (model_sign T (Some dflt) x) (fst o) && vres_eqb (model_verify T x) (snd o)
+  | CRecv _ _ dflt x, RRecv acc, ORecv so acc' =>
+      (* (the request itself is always presented) *)
+      has (q x) K_REQ && sres_eqb (model_sign T (Some dflt) x) so && Bool.eqb acc acc'
+  | _, _, _ => false
+  end.
+
+Fixpoint life_agrees (T : list entry) (steps : list cstep) (ms : list lres) (os : list cobs) : bool :=
+  match steps, ms, os with
+  | [], [], [] => true
+  | s :: st, m :: mt, o :: ot => step_agrees T s m o && life_agrees T st mt ot
+  | _, _, _ => false
+  end.
+
 Definition agrees (c : case) : bool :=
   match c with
   | Unit T via x o =>
       table_ok T && sres_eqb (model_sign T via x) (fst o) && vres_eqb (model_verify T x) (snd o)
   | Stack T dflt x certs must so acc =>
       table_ok T && sres_eqb (model_sign T (Some dflt) x) so && Bool.eqb (model_accept T x certs must) acc
+  | Life T st0 steps obs =>
+      table_ok T && life_agrees T steps (run_life cert_of_T (verify_T T) st0 (map to_lstep steps)) obs
   end.
 
 (* the stack variant of the spec: "verified" = request accepted, "the signer's certificate" = the signer's
@@ -128,10 +177,31 @@ Definition stack_spec_b (x : input nat nat) (certs : list (certarg nat)) (must :
       | _ => true
       end).
 
+(* a life: every reception satisfies the stack spec with the certificates that the receiver's metadata holds NOW
+   for the request's issuer (Spec.published_now: the last reload that succeeded, looking back from the reception;
+   not computed by the model's state threading); every URL the receiver signed itself satisfies the unit spec *)
+Fixpoint life_holds (st0 : list (receiver nat nat)) (before : list (lstep nat)) (steps : list cstep) (os : list cobs)
+  : bool :=
+  match steps, os with
+  | [], _ => true
+  | s :: st, o :: ot =>
+      match s, o with
+      | CRecv r iss dflt x, ORecv so acc =>
+          match nth_error st0 r, published_now st0 before r with
+          | Some rc, Some pub => stack_spec_b (spec_input (Some dflt) x) (nth iss pub []) (r_must rc) so acc
+          | _, _ => false
+          end
+      | CSend r dflt x, OSend o => spec_b cert_of_T Nat.eqb (spec_input (Some dflt) x) o
+      | _, _ => true
+      end && life_holds st0 (before ++ [to_lstep s]) st ot
+  | _ :: _, [] => false
+  end.
+
 Definition holds (c : case) : bool :=
   match c with
   | Unit T via x o => spec_b cert_of_T Nat.eqb (spec_input via x) o
   | Stack T dflt x certs must so acc => stack_spec_b (spec_input (Some dflt) x) certs must so acc
+  | Life T st0 steps obs => life_holds st0 [] steps obs
   end.
 
 (* finding class 1 (C15-F1): the presented parameters equal those of the signed URL except that the
@@ -156,6 +226,7 @@ Definition cls (c : case) : nat :=
   match c with
   | Unit T via x o => if f1_shape x (fst o) && vres_eqb (snd o) VTrue then 1 else 0
   | Stack T dflt x certs must so acc => if f1_shape x so && acc then 1 else 0
+  | Life _ _ _ _ => 0
   end.
 
 Definition run := run_cases agrees holds cls.
@@ -171,4 +242,12 @@ Definition explain (c : case) :=
        stack_spec_b (spec_input (Some dflt) x) certs must so acc,
        match get (q x) K_ALG with Some a => digest_of a | None => None end,
        octets req_order (remove K_SIG (q x)))
+  | Life T st0 steps obs =>
+      (* per step: the model's answer; overall: agrees / holds (table_ok first) *)
+      (table_ok T, SOther, if life_holds st0 [] steps obs then VTrue else VFalse,
+       life_agrees T steps (run_life cert_of_T (verify_T T) st0 (map to_lstep steps)) obs,
+       Some (String.concat "" (map (fun m => match m with RReload true => "R" | RReload false => "r" | ROther => "."
+                                               | RRecv true => "A" | RRecv false => "x" end)
+                            (run_life cert_of_T (verify_T T) st0 (map to_lstep steps)))),
+       EmptyString)
   end.
